@@ -366,6 +366,27 @@ pub fn run(ctx: &mut Ctx) {
             start = if rng.chance(1, 2) { vec![t] } else { vec![t, gen_var_factor_term(&mut rng)] };
             force.push("var-factor");
         }
+        let mut force_ext = false;
+        if !bad && force.is_empty() && rng.chance(1, 8) {
+            // nested bindings: the body of the outer redex is itself a redex. Both are matched in the same round; once the inner
+            // one has been rewritten, the outer match names a class that has been merged away, and (with `ExtractionSubst`)
+            // the substitution works on a term extracted through that outdated invocation
+            let var = |c: u32| ATerm { v: 2, fields: vec![CField::Slot(c)], children: vec![] };
+            let bin = |v: usize, a: ATerm, b: ATerm| ATerm { v, fields: vec![CField::App, CField::App], children: vec![a, b] };
+            let lt = |x: u32, b: ATerm, e: ATerm| ATerm { v: 3, fields: vec![CField::Bind(x, Box::new(CField::App)), CField::App], children: vec![b, e] };
+            let (x, y, a, b2) = (10u32, 14u32, 4u32, 8u32);
+            let inner_body = match rng.below(3) {
+                0 => bin(4, var(y), var(x)),
+                1 => bin(5, var(x), bin(4, var(y), var(a))),
+                _ => bin(4, bin(5, var(y), var(y)), var(x)),
+            };
+            let inner_val = if rng.chance(1, 2) { var(a) } else { bin(4, var(a), var(x)) };
+            let outer_val = if rng.chance(1, 2) { var(b2) } else { bin(5, var(b2), ATerm { v: 15, fields: vec![CField::Lit("2".into())], children: vec![] }) };
+            let t = lt(x, lt(y, inner_body, inner_val), outer_val);
+            start = if rng.chance(1, 2) { vec![t] } else { vec![t, var(a)] };
+            force.push("let-subst");
+            force_ext = allow_extraction && rng.chance(2, 3);
+        }
         let n = if bad { BAD_POOL.len() } else { POOL.len() };
         let k = rng.range(2, 9.min(n));
         let mut idx: Vec<usize> = (0..n).collect();
@@ -383,7 +404,7 @@ pub fn run(ctx: &mut Ctx) {
             idx = vec![only];
         }
         let iters = rng.range(1, 4);
-        let ext = allow_extraction && force.is_empty() && rng.chance(1, 3);
+        let ext = force_ext || allow_extraction && force.is_empty() && rng.chance(1, 3);
         let helper = rng.chance(1, 2);
         ctx.emit(exec_rw(start, idx, iters, ext, helper, bad));
     }
